@@ -117,40 +117,38 @@ Theorem C07_float_rejects_nan : forall vs,
 Proof. exact float_rejects_nan. Qed.
 Print Assumptions C07_float_rejects_nan.
 
-(** Batch FloatArrayEncodeAll.  FULL STATEMENT (refuted below):
-      forall vs, Forall (fun v => v < 2^64 /\ is_nan v = false) vs ->
-                 float_encode_batch vs = Some (float_bytes vs).
-    Proved part: WHENEVER the batch encoder accepts a NaN-free list, its bytes are those of
-    the scalar encoder and both decoders return the list bit-identically. *)
-Theorem C07_float_batch_roundtrip_partial : forall vs b,
+(** Batch FloatArrayEncodeAll: every NaN-free list is accepted, its bytes are those of the
+    scalar encoder, and both decoders return the list bit-identically. *)
+Theorem C07_float_batch_roundtrip : forall vs,
   Forall (fun v => v < 2 ^ 64 /\ is_nan v = false) vs ->
-  float_encode_batch vs = Some b ->
-  float_encode_scalar vs = Some b /\
-  float_decode_scalar b = Some vs /\ float_decode_batch b = Some vs.
+  float_encode_batch vs = Some (float_bytes vs) /\
+  float_encode_batch vs = float_encode_scalar vs /\
+  float_decode_scalar (float_bytes vs) = Some vs /\
+  float_decode_batch (float_bytes vs) = Some vs.
 Proof.
-  intros vs b Hvs E. destruct (float_roundtrip vs Hvs) as (Es & Ds & Db).
-  assert (Eb : b = float_bytes vs).
-  { unfold float_encode_batch in E. destruct vs as [|first r]; [inversion E; reflexivity|].
-    destruct (is_nan first); [discriminate|]. destruct (sum_is_nan r); [discriminate|].
-    inversion E; reflexivity. }
-  subst b. auto.
+  intros vs Hvs. destruct (float_roundtrip vs Hvs) as (Es & Ds & Db).
+  assert (Eb : float_encode_batch vs = Some (float_bytes vs)).
+  { unfold float_encode_batch. destruct vs as [|first r]; [reflexivity|].
+    inversion Hvs as [|? ? [_ Hf] Hr]; subst. rewrite Hf.
+    replace (existsb is_nan r) with false; [reflexivity|].
+    symmetry. apply not_true_is_false. intro Hex.
+    apply existsb_exists in Hex as (x & Hx & Hn).
+    rewrite Forall_forall in Hr. destruct (Hr x Hx) as [_ Hn']. congruence. }
+  rewrite Es. auto.
 Qed.
-Print Assumptions C07_float_batch_roundtrip_partial.
+Print Assumptions C07_float_batch_roundtrip.
 
-(** The batch encoder does NOT accept every NaN-free list: it sums src[1:] and rejects when
-    the sum is NaN, e.g. [1.0; +Inf; -Inf] (confirmed on the real code: known finding
-    float-batch-sum-nan). *)
-Theorem C07_float_batch_roundtrip_refuted :
-  exists vs, Forall (fun v => v < 2 ^ 64 /\ is_nan v = false) vs /\
-             float_encode_batch vs = None /\ float_encode_scalar vs <> None.
+(** any NaN payload anywhere is rejected by the batch encoder too *)
+Theorem C07_float_batch_rejects_nan : forall vs,
+  Exists (fun v => is_nan v = true) vs -> float_encode_batch vs = None.
 Proof.
-  exists [0x3FF0000000000000; 0x7FF0000000000000; 0xFFF0000000000000].
-  split; [|split].
-  - repeat constructor; vm_compute; reflexivity.
-  - vm_compute. reflexivity.
-  - vm_compute. discriminate.
+  intros vs He. unfold float_encode_batch. destruct vs as [|first r]; [inversion He|].
+  destruct (is_nan first) eqn:Ef; [reflexivity|].
+  inversion He as [? ? H|? ? H]; subst; [congruence|].
+  replace (existsb is_nan r) with true; [reflexivity|].
+  symmetry. apply existsb_exists. apply Exists_exists in H as (x & Hx & Hn). eauto.
 Qed.
-Print Assumptions C07_float_batch_roundtrip_refuted.
+Print Assumptions C07_float_batch_rejects_nan.
 
 (** ** strings: snappy is a parameter pair with [decompress (compress b) = Some b] *)
 Theorem C07_string_roundtrip :
